@@ -55,6 +55,7 @@ fn run(module: &str, command: &str, kv: &common::Args) -> i32 {
     match (module, command) {
         ("c01", "drive") => c01::drive(kv),
         ("c02", "drive") => c02::drive(kv),
+        ("c02", "replay") => c02::replay(kv),
         ("c03", "drive") => c03::drive(kv),
         ("c04", "drive") => c04::drive(kv),
         ("c05", "drive") => c05::drive(kv),
